@@ -1,7 +1,7 @@
 SPECIFICATION Spec
 CONSTANTS Mds0 = 2  MdsUp <- MdsUp3  MinPkts = 4  InitPkts = 5  MaxPkts = 6  MinBps = 2  SlotAdd = 0
   PrSet <- PrB  SmallOn = TRUE  MaxPn = 3  MaxEv = 1000
-  ClampOn = TRUE  RecFloorOn = TRUE  MinBpsOn = TRUE  PruneOn = TRUE  MdsClampOn = TRUE
+  ClampOn = TRUE  RecFloorOn = TRUE  MinBpsOn = TRUE  PruneOn = TRUE  MdsClampOn = TRUE  PacerMdsOn = TRUE
 INVARIANT NoViolation
 VIEW View
 CHECK_DEADLOCK FALSE
